@@ -153,7 +153,7 @@ func (vc *VC) AssumeCompTyping(name string, comp Term) {
 		r, k := Term{"r!", SInt}, Term{"k!", Sort(strings.TrimSuffix(strings.TrimPrefix(name, "MV!"), "!Iface"))}
 		if !strings.ContainsAny(string(k.Sort), "!()") {
 			v := Sel(Sel(comp, r), k)
-			vc.Lines = append(vc.Lines, "(assert "+Forall([]Term{r, k}, Ge(ITag(v), IntLit(0)), []Term{v}).S+")")
+			vc.Lines = append(vc.Lines, "(assert "+Forall([]Term{r, k}, And(Ge(ITag(v), IntLit(0)), Implies(Eq(ITag(v), IntLit(0)), Eq(IVal(v), IntLit(0)))), []Term{v}).S+")")
 		}
 		return
 	}
